@@ -87,10 +87,10 @@ def make_objects(worker, vms):
 def make_node(prefix, name, worker=None, objects=None, params=None):
     """A TestNode with a fixed parameter cache. `objects` = [net, vm..., image...] (empty: flat node)."""
     from avocado_i2n.cartgraph import TestNode
-    p = {"name": name, "shortname": name, "main_restrictions": "normal", "pool_scope": "own swarm cluster shared",
+    p = {"name": name, "shortname": name, "main_restrictions": "all nonleaves leaves normal minimal", "pool_scope": "own swarm cluster shared",
          "_name_map_file": {"nets.cfg": f"nets.{worker.swarm_id}.{worker.id.split('.')[-1]}" if worker else ""},
          "shared_pool": "/shared", "swarm_pool": "/swarm", "vms_base_dir": "/vms", "suite_path": "/suite",
-         "unset_mode": "ri", "test_timeout": "100"}
+         "unset_mode": "ri", "test_timeout": "100", "image_name": "images/img", "image_format": "qcow2"}
     if worker is not None:
         p["nets"] = worker.id
         p["nets_spawner"] = worker.params["nets_spawner"]
